@@ -278,7 +278,9 @@ class Verifier(Engine):
             for n in neg:
                 s2.assume(n)
             s2.assume(cond)
-            if not z3.is_false(simp(cond)) and self.feasible(s2):
+            # implicit-raise paths are NOT pruned here (one solver call each would dominate generation time): an
+            # infeasible one only yields obligations whose path condition is unsatisfiable, discharged in the parallel pool
+            if not z3.is_false(simp(cond)):
                 s2.line = line
                 outs.append((RAISE, exc, s2))
             neg.append(z3.Not(cond))
